@@ -554,6 +554,9 @@ func init() {
 				}
 			}
 		}
+		if replay == "" {
+			c09PathServers(meta)
+		}
 		meta.NCases = len(cases)
 		var off1, off2 []int
 		var f2 []string
